@@ -89,8 +89,9 @@ class Game(AsyncMode):
         # Game loop
         while not self.ending:
             await self._start_player_turn()
-            # run the ball
-            await self._run_ball()
+            # run the ball (unless the end of the game was requested while the turn was starting)
+            if not self.ending and not self.slam_tilted:
+                await self._run_ball()
 
             # run any extra balls
             while self.player.extra_balls and not self.slam_tilted and not self.ending:
